@@ -247,7 +247,9 @@ fn check_poly(sys: &Sys, poly: &Polytope, prefix: &str, with_subsets: bool, with
         for mask in 0..(1u32 << m) {
             let idx: Vec<usize> = (0..m).filter(|i| mask & (1 << i) != 0).collect();
             out.add("evaluations", 1);
-            match catch(|| poly.remove_rows(idx.clone())) {
+            // Vec for even masks, lazily filtered iterator (size_hint lower bound 0) for odd ones
+            let res = if mask % 2 == 0 { catch(|| poly.remove_rows(idx.clone())) } else { catch(|| poly.remove_rows((0..m).filter(|i| mask & (1 << i) != 0))) };
+            match res {
                 Err(e) => out.violate(Violation::new(format!("remove_rows({:?}) panicked: {e}", idx), rec("remove_rows", None)).tag("call", "remove_rows").tag("kind", "panic")),
                 Ok(p) => {
                     let r = rows_of(&p);
@@ -308,6 +310,55 @@ pub fn grid(tier: Tier) -> Vec<Sys> {
         }
     }
     v
+}
+
+/// The single-precision instantiation of the same generic clean-up code on short rows (norm between f64::EPSILON and
+/// f32::EPSILON) and ordinary ones: same point set, only rows dropped.
+fn check_f32() -> CaseOut {
+    use affinitree::linalg::affine::{AffFuncBase, PolytopeT};
+    type P32 = AffFuncBase<PolytopeT, ndarray::OwnedRepr<f32>>;
+    let mut out = CaseOut::default();
+    let to_rows = |p: &P32| -> Rows { p.mat.outer_iter().zip(p.bias.iter()).map(|(r, b)| (r.iter().map(|x| Q::from_f64(*x as f64)).collect(), Q::from_f64(*b as f64))).collect() };
+    let mut systems: Vec<Vec<(Vec<f32>, f32)>> = vec![];
+    for s in [1.0f32, 1e-8, 3e-10, 1e-5] {
+        systems.push(vec![(vec![s, 0.0], s), (vec![0.0, s], s)]);
+        systems.push(vec![(vec![s, 0.0], -s), (vec![-s, 0.0], -s)]);
+        systems.push(vec![(vec![s, 0.0], s), (vec![s, s / 2.0], s)]);
+        systems.push(vec![(vec![s, 0.0], s), (vec![2.0 * s, 0.0], 2.0 * s), (vec![0.0, -s], 0.0)]);
+        systems.push(vec![(vec![s, s], s), (vec![s, s], 2.0 * s)]);
+    }
+    for rows in systems {
+        out.add("systems", 1);
+        out.add("systems_nontrivial", 1);
+        let n = 2;
+        let mut m = ndarray::Array2::<f32>::zeros((rows.len(), n));
+        let mut b = ndarray::Array1::<f32>::zeros(rows.len());
+        for (i, (a, bb)) in rows.iter().enumerate() {
+            for j in 0..n {
+                m[[i, j]] = a[j];
+            }
+            b[i] = *bb;
+        }
+        let p = P32::from_mats(m, b);
+        let inp = to_rows(&p);
+        let rec = |op: &str| json!({"element_type": "f32", "rows_A_b": rows.iter().map(|(a, b)| (a.clone(), *b)).collect::<Vec<_>>(), "operation": op});
+        for (name, res) in [("remove_duplicate_rows", catch(|| p.remove_duplicate_rows())), ("remove_tautologies", catch(|| p.remove_tautologies())), ("remove_zero_rows", catch(|| p.remove_zero_rows()))] {
+            out.add("evaluations", 1);
+            match res {
+                Err(m) => out.violate(Violation::new(format!("f32 {name} panicked: {m}"), rec(name)).tag("call", name).tag("kind", "panic").tag("element", "f32")),
+                Ok(r) => {
+                    let rr = to_rows(&r);
+                    if !(subsequence(&inp, &rr) || is_placeholder(n, &rr).is_some()) {
+                        out.violate(Violation::new(format!("f32 {name}: result is not a subsequence of the input rows"), rec(name)).tag("call", name).tag("kind", "not_subsequence").tag("element", "f32"));
+                    }
+                    if !same_set(n, &inp, &rr) {
+                        out.violate(Violation::new(format!("f32 {name}: the point set changed"), rec(name)).tag("call", name).tag("kind", "set_changed").tag("element", "f32"));
+                    }
+                }
+            }
+        }
+    }
+    out
 }
 
 pub fn run(tier: Tier) -> Report {
@@ -398,6 +449,7 @@ pub fn run(tier: Tier) -> Report {
     let mut ge: Vec<Sys> = systems(2, 2, &[0.0, t51, -t51, t52], &[-t51, t51]).into_iter().filter(|s| s.rows.iter().any(|(a, _)| a.iter().any(|v| *v == t52) && a.iter().any(|v| v.abs() == t51))).collect();
     ge.extend(systems(1, 2, &[t51, -t51, 2.0 * t51], &[-t51, t51, 2.0 * t51]));
     ge.extend(systems(2, 2, &[0.0, 1.0, -1.0, a27], &[-1.0, 1.0]).into_iter().filter(|s| s.rows.iter().any(|(a, _)| a.iter().any(|v| *v == a27) && a.iter().any(|v| v.abs() == 1.0))));
+    rep.absorb(check_f32());
     rep.set("systems_near_epsilon", ge.len() as u64);
     let t4 = par_cases(&ge, |_, s| check_system_opt(s, true, false));
     rep.absorb(t4);
